@@ -340,10 +340,21 @@ def wl_notes(spec, ctx, mods):
         eiv, ehz, evel = gen.related_notes(r, riv, rhz, rvel)
         if len(eiv) == 0:
             eiv, ehz, evel = gen.notes(r, n=2)
+        if r.random() < 0.1:
+            # whole-second reference notes in an integer-typed array, estimates
+            # off by fractions of a second
+            riv = np.array([[a, a + r.randrange(1, 5)] for a in
+                            sorted(r.sample(range(0, 40), len(riv)))], dtype=np.int64)
+            eiv = riv.astype(float) + np.array(
+                [[r.choice([0, 0.25, -0.25, 0.0625]), r.choice([0, 0.25, 0.375, -0.5, 0.75])]
+                 for _ in riv])
+            eiv[:, 0] = np.maximum(eiv[:, 0], 0.0)
+            eiv[:, 1] = np.maximum(eiv[:, 1], eiv[:, 0] + 1 / 64)
+            ehz, evel = rhz.copy(), rvel.copy()
         strict = r.random() < 0.5
-        onset_tol = r.choice([1 / 64, 1 / 32, 1 / 16, 0.05, 1 / 8])
+        onset_tol = r.choice([1 / 64, 1 / 32, 1 / 16, 0.05, 1 / 8, 0.5])
         ratio = r.choice([None, 0.25, 0.2, 0.5, 0.125])
-        min_tol = r.choice([1 / 64, 1 / 32, 0.05, 1 / 16])
+        min_tol = r.choice([1 / 64, 1 / 32, 0.05, 1 / 16, 0.5])
         ptol = r.choice([50.0, 25.0, 100.0, 37.5])
         kw = dict(onset_tolerance=onset_tol, pitch_tolerance=ptol,
                   offset_ratio=ratio, offset_min_tolerance=min_tol, strict=strict)
